@@ -81,6 +81,8 @@ class Fragment:
         self.src_loc = src_loc
         self.origins = None
         self.domain_renames = {}
+        # Clock domains created by `_create_missing_domains()`, whose signals become top-level ports.
+        self._implicit_domains = []
 
     def add_domains(self, *domains):
         for domain in flatten(domains):
@@ -162,6 +164,7 @@ class Fragment:
                 # And expose ports on the newly added clock domain, since it is added directly
                 # and there was no chance to add any logic driving it.
                 new_domains.append(value)
+                self._implicit_domains.append(value)
             else:
                 new_fragment = Fragment.get(value, platform=platform)
                 if domain_name not in new_fragment.domains:
@@ -223,8 +226,10 @@ class Fragment:
         ports = self._prepare_ports(ports)
 
         if propagate_domains:
-            new_domains = self._propagate_domains(missing_domain)
-            for domain in new_domains:
+            self._propagate_domains(missing_domain)
+            # Not only the domains created by this call: the same fragment may be prepared several times
+            # (e.g. simulated and then converted), and must have the same ports each time.
+            for domain in self._implicit_domains:
                 ports.append((None, domain.clk, PortDirection.Input))
                 if domain.rst is not None:
                     ports.append((None, domain.rst, PortDirection.Input))
